@@ -1055,7 +1055,7 @@ def check_C18(tier, seed):
 def run_vpred(out, grid, emitmod, cases_file):
     cfg = os.path.join(OUT, "tlc", "vpred_%s.cfg" % grid)
     write_cfg(cfg, constants=dict(GridName=grid, EmitMod=emitmod, Emit=True),
-              invariants=["CofactorIsDeterminant", "AgreesWithDefinition", "FirstOrderOK", "TranslationInvariant", "EmitVec"])
+              invariants=["CofactorIsDeterminant", "AgreesWithDefinition", "FirstOrderOK", "TranslationInvariant", "SimilarityInvariant", "EmitVec"])
     with open(cases_file, "a") as f:
         r = run_tlc("mc/MCVPred.tla", cfg, tag_sink={"PRED": f}, tags=("PRED",), timeout=3000)
     if r.violation:
@@ -1064,6 +1064,17 @@ def run_vpred(out, grid, emitmod, cases_file):
     out.coverage["transitions"] = out.coverage.get("transitions", 0) + r.states
     out.coverage.setdefault("models", {})["VPred/" + grid] = dict(states=r.distinct, wall=round(r.wall, 1))
     log("VPred %s: %d states (%.1fs)" % (grid, r.distinct, r.wall))
+
+
+def vpred_aniso_witness(out):
+    """Non-vacuity of the similarity requirement on the grid map (finding F13): the model must REJECT invariance of the in-sphere sign
+    under the scaling of one axis alone."""
+    cfg = os.path.join(OUT, "tlc", "vpred_aniso.cfg")
+    write_cfg(cfg, constants=dict(GridName="g13", EmitMod=1, Emit=False), invariants=["NoAnisoInvariance"])
+    r = run_tlc("mc/MCVPred.tla", cfg, timeout=1200)
+    if not r.violation:
+        raise ToolError("VPred: the in-sphere sign came out invariant under an anisotropic scaling of the grid - the model is wrong")
+    out.coverage.setdefault("models", {})["VPred/anisotropic scaling changes the sign (must fail)"] = dict(violated=True, states=r.distinct)
 
 
 def pred_cases(out, tier, tag):
@@ -1094,6 +1105,7 @@ def check_C10(tier, seed):
     out = Outcome("C10", tier, seed)
     cases_file = pred_cases(out, tier, "C10")
     ntuples = sum(1 for _ in open(cases_file))
+    vpred_aniso_witness(out)
     # the builder always supplies positions inside the grid domain: VCell.QueriesInDomain on small families
     for name in (["R3s", "P3a", "P2a", "D1p"] if tier == "quick" else ["R3a", "P3a", "P3b", "P2a", "P2x", "D2a", "D1a", "D1p"]):
         cfg = os.path.join(OUT, "tlc", "vcell_dom_%s.cfg" % name)
